@@ -1,12 +1,7 @@
 #!/bin/bash
-# try_patch.sh <patch.diff> : applies the patch to /repo's working tree, runs every
-# check in one process, prints which properties report, and restores /repo.
-set -u
-P=$(readlink -f "$1")
-cd /repo || exit 2
-if [ -n "$(git status --porcelain)" ]; then echo "/repo is not clean"; exit 2; fi
-git apply "$P" || { echo "patch does not apply"; exit 2; }
-/verif/bin/crsverif -property ALL -repo /repo -verif /verif -no-evidence 2>&1 | grep -v '^crsverif: exit'
-rc=$?
-git checkout -q -- . && git clean -fdq
+# try_patch.sh <patch.diff>: runs every check on /repo's current source with the patch
+# applied as an overlay (copies of the affected files; /repo itself is not modified) and
+# prints which properties report.
+export GOFLAGS=-mod=mod GOPROXY=off GOSUMDB=off GOTOOLCHAIN=local; unset GOWORK
+/verif/bin/crsverif -property ALL -repo ${CRSVERIF_REPO:-/repo} -verif /verif -no-evidence -patch "$(readlink -f "$1")" 2>&1 | grep -v '^crsverif: exit'
 exit 0
